@@ -95,4 +95,21 @@ def statusWord : Res → String
   | .execFail => "XFAIL"
   | .timeout => "TIMEOUT"
 
+/-- `short_status_str`'s arm and word (the `TRY k …` lines): a failure is FAIL with or without a leak -/
+def shortStatusKey : Res → String
+  | .pass => "Pass"
+  | .leak => "Leak"
+  | .fail (some _) _ => "Fail/signal"
+  | .fail none _ => "Fail"
+  | .execFail => "ExecFail"
+  | .timeout => "Timeout"
+
+def shortStatusWord : Res → String
+  | .pass => "PASS"
+  | .leak => "LEAK"
+  | .fail (some _) _ => "s|SIG"
+  | .fail none _ => "FAIL"
+  | .execFail => "XFAIL"
+  | .timeout => "TMT"
+
 end NextestModel.Classify
